@@ -126,7 +126,13 @@ def make_case(b, p, tmark, req, st, corrupt, cuts, limit):
     cuts, _, opts = cuts.partition("|")      # "sweep1|appcb=1 cbshape=1": how the callbacks are registered and called
     line = "case tmark=%s limit=%d hdr=%s body=%s cuts=%s xflags=%s xfile=%s xerrby=%d" % (
         tmark, limit, ";".join(h.hex() for h in hdr), body.hex() or "-", cuts, e["xflags"], e["xfile"].hex(), xerrby)
-    if opts:
+    if opts.startswith("dropat="):
+        # the connection dropped after n body bytes of a first response; the client resets the zckDL, sets the same range again
+        # and receives the complete response: the outcome must be that of the complete response alone
+        n = int(opts.split("=")[1])
+        line = line.replace(" body=%s " % (body.hex() or "-"), " body=%s " % (body[:n].hex() or "-"), 1)
+        line += " hdr2=%s body2=%s between=2" % (";".join(h.hex() for h in hdr) or "-", body.hex() or "-")
+    elif opts:
         line += " " + opts
     if e["mask"]:
         line += " xmask=" + ",".join("%d-%d" % m for m in e["mask"])
@@ -153,7 +159,7 @@ def work(arg):
         bclass = "plain" if not multi else ("hex" if st.boundary == BOUNDARIES[0] else
                                            ("regex-metachar" if any(ch in st.boundary for ch in "+.()?*[]{}|^$\\") else "other"))
         klass = {"check": "C05", "format": "multipart" if multi else "plain", "boundary": bclass, "corrupted": corrupt is not None,
-                 "callbacks": cuts.partition("|")[2] or "default",
+                 "callbacks": (cuts.partition("|")[2] or "default").split("=")[0] if "dropat" in cuts else (cuts.partition("|")[2] or "default"),
                  "quoted": bool(st and st.quoted), "spelling": None if not multi else [st.cr_case, st.extra, st.lead_crlf, st.ctype_first]}
         what0 = "%s missing=%s limit=%d request=%s %s%s cuts=%s" % (name, tmark, limit, req, st.name() if multi else "plain",
                                                                  " corrupt-chunk-%s" % (corrupt if not isinstance(corrupt, (list, tuple)) else "%d-twin" % corrupt[0]) if corrupt is not None else "", cuts)
@@ -209,6 +215,13 @@ def run(ctx):
                     items.append((m, -1, req, default, None, cuts + "|" + opts))
                 for j in e["covered"][:2]:
                     items.append((m, -1, req, default, j, "k7|" + opts))
+            if m in marks[:2] + marks[-2:]:
+                _, blen, layout = make_case(b, p, m, req, default, None, "-", -1)
+                # only cuts that complete no chunk: the second request then is the same as the first (updates in which chunks
+                # were completed before the drop are C04's dropped-connection dimension, where the server answers each request)
+                first_len = zckref.extents(p)[e["covered"][0]][1]
+                for n in range(0, min(blen, layout[0][0] + first_len)):
+                    items.append((m, -1, req, default, None, "-|dropat=%d" % n))
             for lim in (1, 2):
                 r2 = reqs[(name, m, lim)]
                 if r2 != req:
